@@ -377,7 +377,7 @@ func newWorker(root string, n int, ops []opDef) *worker {
 	os.MkdirAll(w.dir, 0o777)
 	c, err := cache.Open(w.dir)
 	if err != nil {
-		kit.Harness("cache.Open: %v", err)
+		kit.UnderTestFailed("cache.Open of a fresh directory fails: %v", err)
 	}
 	w.tmpl = c
 	return w
